@@ -62,6 +62,16 @@ func c02Lex(space string) engine.RunFunc {
 			tt, tok := s.next()
 			off := s.off()
 			if tt == 0 && len(tok) == 0 {
+				if isHTML && prevEnd < n && P[prevEnd] == '<' {
+					// an error inside an svg or math subtree: no token is delivered, but the name of its opening tag, where
+					// the failing call began, is a tag name all the same
+					for i := prevEnd + 1; i < n; i++ {
+						if b := P[i]; !('a' <= b && b <= 'z' || 'A' <= b && b <= 'Z') {
+							break
+						}
+						lowerOK[i] = true
+					}
+				}
 				// error token without data: whitespace moved over inside a tag may stay uncovered
 				if (isHTML || isXML) && inTag {
 					for i := prevEnd; i < off && i < n; i++ {
